@@ -169,8 +169,27 @@ let kcfg_of pt rt dl iv ah re : kcfg =
   { press_th = n_of_int (ios pt); release_th = n_of_int (ios rt); rep_delay = n_of_int (ios dl);
     rep_interval = n_of_int (ios iv); active_high = s2b ah; rep_enabled = s2b re }
 
+(* ---- scheduler ------------------------------------------------------------------------ *)
+let parse_act (s : string) : act =
+  if String.length s > 0 && s.[0] = 's' then ASleep (n_of_int (ios (String.sub s 1 (String.length s - 1))))
+  else if String.length s > 0 && s.[0] = 'e' then AEmit (n_of_int (ios (String.sub s 1 (String.length s - 1))))
+  else failwith ("bad act " ^ s)
+let parse_script (s : string) : act list =
+  if s = "-" then [] else List.map parse_act (split_on ',' s)
+
+let sched_case (clock0 : string) (budgets : string) (tasks : string list) : string =
+  let d0 = sched_spawn_all (n_of_int (ios clock0)) (List.map parse_script tasks) in
+  let bs = List.map (fun b -> n_of_int (ios b)) (split_on ',' budgets) in
+  match sched_drive d0 bs with
+  | None -> "ERR fuel"
+  | Some (dv, rs) ->
+      let show_r r = match r with RMax c -> "M:" ^ d c | RUser (e, c) -> "U" ^ d e ^ ":" ^ d c in
+      String.concat ";" (List.map show_r rs) ^ " | clock=" ^ (string_of_int (int_of_n dv.clock)) ^ " | " ^
+      String.concat "," (List.map (fun (c, t) -> string_of_int (int_of_n c) ^ ":" ^ string_of_int (int_of_n t)) dv.log)
+
 let handle (w : string list) : string =
   match w with
+  | "sched" :: clock0 :: budgets :: tasks -> sched_case clock0 budgets tasks
   | "kbd_py" :: pt :: rt :: dl :: iv :: ah :: re :: _irq :: ops ->
       show_nll (kbd_py_run (kcfg_of pt rt dl iv ah re) (List.map parse_kop ops))
   | "kbd_rs" :: pt :: rt :: dl :: iv :: ah :: re :: irq :: ops ->
